@@ -671,7 +671,7 @@ let d_next =
     (true, false, false, false, false, true, true, false)),
     EmptyString)))))))))))))))), (Zpos (Coq_xO (Coq_xO (Coq_xO
     Coq_xH)))))))), (C (Zpos Coq_xH)))), (Add ((Zpos (Coq_xO (Coq_xO (Coq_xO
-    (Coq_xO (Coq_xO Coq_xH)))))), (V ((String ((Ascii (false, true, false,
+    (Coq_xO (Coq_xO Coq_xH)))))), (V ((String ((Ascii (true, false, false,
     false, false, true, true, false)), (String ((Ascii (false, true, false,
     false, true, true, true, false)), (String ((Ascii (true, false, true,
     false, false, true, true, false)), (String ((Ascii (true, true, true,
@@ -679,7 +679,7 @@ let d_next =
     true, true, false, true, false)), (String ((Ascii (true, false, false,
     false, true, true, true, false)), EmptyString)))))))))))), (Zpos (Coq_xO
     (Coq_xO (Coq_xO (Coq_xO (Coq_xO Coq_xH)))))))), (V ((String ((Ascii
-    (true, false, false, false, false, true, true, false)), (String ((Ascii
+    (false, true, false, false, false, true, true, false)), (String ((Ascii
     (false, true, false, false, true, true, true, false)), (String ((Ascii
     (true, false, true, false, false, true, true, false)), (String ((Ascii
     (true, true, true, false, false, true, true, false)), (String ((Ascii
